@@ -98,10 +98,12 @@ class FieldArrayModel(FieldCompositeModel):
         self.product_expr = None
         self.product_expr_btor = None
 
-        # Set the size field for arrays that don't
-        # have a random size
+        # Set the size field for arrays that don't have a random
+        # size. A random-size array that is not random in this
+        # call keeps the size it has
         if self.is_rand_sz:
-            self.size.set_used_rand(True)
+            if self.is_used_rand:
+                self.size.set_used_rand(True)
         else:
             self._set_size(len(self.field_l))
         FieldCompositeModel.pre_randomize(self, visited)
